@@ -360,6 +360,31 @@ func (c *fnCtx) lin0(v ssa.Value) Lin {
 			if c.fits(src, ival{lo, hi, a, b}) {
 				return c.lin(x.X)
 			}
+			// not known to fit from the types alone: the conversion preserves the value wherever
+			// the guards in force bound the operand by the destination type's range
+			r := c.atom(v)
+			sl := c.lin(x.X)
+			var conds []Ineq
+			okAll := true
+			if a {
+				q, ok := leq(linConst(lo), sl, "operand ≥ min of destination type")
+				okAll = okAll && ok
+				conds = append(conds, q)
+			}
+			if b {
+				q, ok := leq(sl, linConst(hi), "operand ≤ max of destination type")
+				okAll = okAll && ok
+				conds = append(conds, q)
+			}
+			if srcLo, _, okSrcLo, _ := c.typeRange(x.X.Type()); okSrcLo && srcLo == 0 && !a {
+				// unsigned source into an unbounded-below destination: nothing to require below
+			}
+			e1, ok1 := leq(r, sl, "value-preserving conversion")
+			e2, ok2 := leq(sl, r, "value-preserving conversion")
+			if okAll && ok1 && ok2 && len(conds) > 0 {
+				c.lemmas = append(c.lemmas, lemma{cond: conds, then: []Ineq{e1, e2}, key: "conv:" + c.id(v)})
+			}
+			return r
 		}
 		return c.atom(v)
 	case *ssa.BinOp:
